@@ -112,7 +112,7 @@ EXTRA = {
  "C12": "Also: the per-transaction catalog clone shares no map or slice with the cached catalog; the persisted column flags byte accumulates NOT NULL / AUTO_INCREMENT / HAS_DEFAULT; index entries are re-used only for the same row version; DDL commits invalidate the catalog cache. Generated keys continue after an explicit key above the maximum. Uniqueness probes skip tombstones; timestamps enter truncated; a NOT NULL column is never added to an existing table; persisted CHECK text carries every evaluated field; a NULL default meets the NOT NULL check. The Row evaluated by CHECK receives every value stored into the row image; TRUNCATE carries every secondary index over; the deferred cancel of the query path cancels on every error; a catalog is published into the cache only under an unchanged version; a failed DML ... RETURNING is reported.",
  "C13": "Also: the result of every SQLTx.Commit call is consumed (a failed COMMIT is never reported as success); the catalog clone is deep; own writes are recorded against the latest write. The statement loop commits only implicit transactions. Every data snapshot of a transaction, read-only or not, is at least as recent as the last catalog change. A failed DML ... RETURNING is reported, never an empty success; only committed transactions are listed as committed; index-entry keys are assembled in place; PostgreSQL wire: after a failure inside a block nothing runs until the block ends, and describing a statement does not execute it.",
  "C14": "Also: every catalog loader with a copy mode re-writes what it loads into the copy transaction; the forward walk of TruncateUptoTx covers the committed frontier; the first chunk kept by DiscardUpto is the one holding the offset. Read-transaction holders are released on every path; the shared export buffer is copied under its lock. The discard offset is derived from the first entry of the cut transaction; the catalog copy covers every persisted kind of catalog entry (views and sequences included). The catalog copy builds its scan keys from every persisted prefix; store transactions opened by the database layer are committed or cancelled on every path; the truncation plan is a header or an error; the truncation attribute survives the proto conversion. Known finding: the forward walk of TruncateUptoTx stops at the committed frontier (writers in flight are not seen).",
- "C15": "Also: within a decoder the cursor advances by exactly what was read at it; length limits use the same comparison on both sides; timestamps are normalised where they enter the engine; metadata converters return nil only for nil. Length comparisons of the SQL key codec test 'exceeds' on both sides; both lengths returned by DecodeValueLength are used by every row decoder; nanosecond keys are built only from timestamps in range. Expression text persisted in the catalog carries every field evaluation uses; exported bytes are the bytes read. Converters guard on presence, never on values (one frozen proto3 exception); values of fallible getters are used on the success edge; what is serialized next to an index entry is computed in the iteration that serializes it.",
+ "C15": "Also: within a decoder the cursor advances by exactly what was read at it; length limits use the same comparison on both sides; timestamps are normalised where they enter the engine; metadata converters return nil only for nil. Length comparisons of the SQL key codec test 'exceeds' on both sides; both lengths returned by DecodeValueLength are used by every row decoder; nanosecond keys are built only from timestamps in range. Expression text persisted in the catalog carries every field evaluation uses; exported bytes are the bytes read. Converters guard on presence, never on values (one frozen proto3 exception); values of fallible getters are used on the success edge; what is serialized next to an index entry is computed in the iteration that serializes it. PostgreSQL wire: 2/4-byte integers are widened through the signed type, the binary result encoder has a case for every storable type; rows sorted through temporary files carry a presence byte per value and a 32-bit size; string literals are rendered with their quotes doubled.",
  "C16": "Also: every make([]T, n) whose n derives from a decoded 32/64-bit integer is dominated by a comparison on it; a decoded uint64 converted to int is range-checked; chunk-receiver loops cannot return to Recv() after io.EOF without consulting the recorded flag; the chunk size read back from a chunk header is validated; proof-term slices are in scope for the proof verifiers. Map lookups keyed by a decoded value-log id are comma-ok guarded; the pgsql front-end message parsers are decoder roots. b[:n] with a computed n is proven non-negative; decoders use comma-ok type assertions; sub-messages of peer messages are nil-checked before use (client, auditor, document verification, converters, ExecAll validation). Lexer read loops are left once a read failed (end of input included); constructors of the storage layers never answer (nil, nil); a decoded inner node has at least one child; every allocation sized by a decoded 32/64-bit number is compared with a limit first (module-wide).",
  "C17": "Also: the file is read only below fileOffset (E6 obligation); a rewind must be persistent (two known findings: no truncation, later chunk files kept). The zero-fill of a preallocated file is cut to preallocSize; the compressed-chunk bound is taken against the logical size. An in-buffer rewind is computed from buffer indexes; a cached chunk is closed only without readers; header reads are full reads; a cache miss is not surfaced as a read error; an empty last chunk is created again. The byte count of a short write is added to the file offset and the flushed mark on the error path too; the routing step hands out the active chunk only when the offset's chunk id equals the active one.",
  "C18": "Also: statements sent to a session transaction pass the gate of SQLExec/SQLQuery on the session's database, which must be the transaction's database; user-record changes drop the cached record unconditionally; field updates of user/permission records are effective (no lost write to a range copy); token validation includes the expiry claim. Every message received on a bidirectional stream passes the gate again. Rights on the database named in a request need admin permission on that database; the creator of an account is rewritten only by who may already act on it. Closing the sessions of a user goes on after a session that could not be released; a permission change rewrites the SQL privileges of the named database only.",
